@@ -507,6 +507,21 @@ func checkSelectSiblings(c *Ctx, stmts []sqlStmt, rule string) {
 		if s.Tokens[0] != "SELECT" || tableOf(s.Tokens) != "events" {
 			continue
 		}
+		// only statements that read events (their type or data); an aggregate over the
+		// table (COUNT, MAX(position)) delivers no event
+		readsEvents := false
+		for _, t := range s.Tokens[1:] {
+			if t == "FROM" {
+				break
+			}
+			if t == "DATA" || t == "TYPE" || t == "*" && !has(s.Tokens, "COUNT", "(", "*", ")") {
+				readsEvents = true
+			}
+		}
+		if !readsEvents {
+			c.Discharge(rule, "sql-select-on-log/"+sqlKey(s), s.Pos, "does not read events (no type/data column selected)")
+			continue
+		}
 		n++
 		ok := has(s.Tokens, "SELECT", "POSITION", ",", "TYPE", ",", "DATA", ",", "TIMESTAMP", "FROM", "EVENTS", "WHERE", "POSITION", ">", "?", "ORDER", "BY", "POSITION")
 		if ok {
